@@ -80,7 +80,8 @@ static inline void ABTI_thread_unset_request(ABTI_thread *p_thread,
 #define ABTI_THREAD_HANDLE_REQUEST_CANCELLED ((int)0x1)
 #define ABTI_THREAD_HANDLE_REQUEST_MIGRATED ((int)0x2)
 
-static inline int ABTI_thread_handle_request(ABTI_thread *p_thread,
+static inline int ABTI_thread_handle_request(ABTI_xstream *p_local_xstream,
+                                             ABTI_thread *p_thread,
                                              ABT_bool allow_termination)
 {
 #if defined(ABT_CONFIG_DISABLE_CANCELLATION) &&                                \
@@ -95,7 +96,7 @@ static inline int ABTI_thread_handle_request(ABTI_thread *p_thread,
 #ifndef ABT_CONFIG_DISABLE_CANCELLATION
     if (allow_termination && ABTU_unlikely(request & ABTI_THREAD_REQ_CANCEL)) {
         ABTI_thread_handle_request_cancel(ABTI_global_get_global(),
-                                          p_thread->p_last_xstream, p_thread);
+                                          p_local_xstream, p_thread);
         return ABTI_THREAD_HANDLE_REQUEST_CANCELLED;
     }
 #endif /* !ABT_CONFIG_DISABLE_CANCELLATION */
@@ -107,7 +108,7 @@ static inline int ABTI_thread_handle_request(ABTI_thread *p_thread,
         int abt_errno =
             ABTI_thread_handle_request_migrate(ABTI_global_get_global(),
                                                ABTI_xstream_get_local(
-                                                   p_thread->p_last_xstream),
+                                                   p_local_xstream),
                                                p_thread);
         if (abt_errno == ABT_SUCCESS) {
             return ABTI_THREAD_HANDLE_REQUEST_MIGRATED;
